@@ -1,3 +1,38 @@
-/-! C07 property theorems — stub (not built yet). -/
+import TTModel.C07_Transforms
+/-! C07 property theorems (in progress) -/
 namespace TTProps.C07
+open TT.C07
+
+/-- `TransformedParameter`: whatever sets of the wrapped parameter happened, a call returns the
+log-Jacobian for the CURRENT value -/
+theorem tp_call_current {α β : Type} (f : α → α) (ld : α → α → β) (x0 : α) (xs : List α) :
+    let tp := xs.foldl TP.setX (TP.init f x0)
+    (TP.call f ld tp).1 = ld (xs.getLastD x0) (f (xs.getLastD x0)) := by
+  have inv : ∀ (tp : TP α), (tp.needUpdate = true ∨ tp.cached = f tp.x) →
+      (TP.call f ld tp).1 = ld tp.x (f tp.x) := by
+    intro tp h
+    unfold TP.call TP.refresh
+    by_cases hu : tp.needUpdate = true
+    · simp [hu]
+    · rcases h with h | h
+      · exact absurd h hu
+      · simp [hu, h]
+  have hx : ∀ (xs : List α) (tp : TP α), (tp.needUpdate = true ∨ tp.cached = f tp.x) →
+      ((xs.foldl TP.setX tp).needUpdate = true ∨ (xs.foldl TP.setX tp).cached = f (xs.foldl TP.setX tp).x) ∧
+      (xs.foldl TP.setX tp).x = xs.getLastD tp.x := by
+    intro xs
+    induction xs with
+    | nil => intro tp h; exact ⟨h, rfl⟩
+    | cons a xs ih =>
+      intro tp _
+      have := ih (TP.setX tp a) (Or.inl rfl)
+      simp only [List.foldl_cons]
+      refine ⟨this.1, ?_⟩
+      rw [this.2]
+      cases xs <;> simp [TP.setX, List.getLastD]
+  intro tp
+  have h := hx xs (TP.init f x0) (Or.inr rfl)
+  rw [inv tp h.1, h.2]
+  rfl
+
 end TTProps.C07
